@@ -15,10 +15,19 @@ func isStoreSort(s Sort) bool {
 // frameMatch compares A and G structurally. Returns the mapping G-array-name -> A-array-name for
 // the top-level store arrays that differ, or ok=false.
 func frameMatch(a, g *Term, bound map[string]string, pairs map[string]string) bool {
+	if a.op == "!" && g.op == "!" {
+		return frameMatch(a.args[0], g.args[0], bound, pairs)
+	}
 	if a.op != g.op || len(a.args) != len(g.args) || a.sort != g.sort {
 		return false
 	}
 	switch a.op {
+	case "!":
+		// pattern annotation: only the body matters
+		if len(a.args) == 0 || len(g.args) == 0 {
+			return false
+		}
+		return frameMatch(a.args[0], g.args[0], bound, pairs)
 	case "const":
 		if a.name == g.name {
 			return true
@@ -85,6 +94,8 @@ func frameSideConditions(g *Term, pairs map[string]string, bound map[string]bool
 	switch g.op {
 	case "const", "int", "bool":
 		return true
+	case "!":
+		return frameSideConditions(g.args[0], pairs, bound, out, seen)
 	case "forall", "exists":
 		nb := map[string]bool{}
 		for k := range bound {
